@@ -15,7 +15,7 @@ from fractions import Fraction
 import common as C
 
 ID = "C18"
-COQ_TARGETS = ["Properties/C18.vo"]
+COQ_TARGETS = ["Properties/C18.vo", "GenFacts/SamplingSrcFacts.vo"]
 MODEL_TARGETS = ["Model/Sampling.vo"]
 IMPORTS = "From Ka Require Import Model.Sampling.\nOpen Scope string_scope.\nOpen Scope Q_scope.\n"
 LEVEL = "proof"
